@@ -23,7 +23,8 @@ RULE = (
     "LinearRamp / piecewise / sinusoidal time-dependent scalar parameters, int, float} with + - * / ** in both operand orders and "
     "operands shared between branches; handed to real solver runs (adaptive, thermalisation, repeated times); every update's applied "
     "potential is compared with an independent interpreter; non-trivial = the tree has at least one operator and the run took >= 3 "
-    "updates (or was rejected, which is itself the violation); distinct = distinct tree digests"
+    "updates (or was rejected, which is itself the violation); time-dependent trees are additionally put through a fixed evaluation "
+    "history (repeated times, coordinates rewritten in place, fresh buffers); distinct = distinct tree digests"
 )
 BUDGET = {"quick": {"runs": 500, "chunk": 10}, "thorough": {"runs": 20000, "chunk": 20}}
 COMPONENTS = {"real": ["tdgl.Parameter / CompositeParameter (operators, caching, _clear_cache, pickling)", "tdgl.sources.*", "TDGLSolver (evaluation per step, cache clearing)", "Solution save/reload of the parameter"], "stub": ["wall clock"]}
@@ -70,7 +71,11 @@ def gen_S(rnd, T, depth, share):
 
 def gen_V(rnd, T, depth, B0, share):
     if depth <= 0 or rnd.random() < 0.25:
-        if rnd.random() < 0.8:
+        r = rnd.random()
+        if r < 0.2:
+            # time- AND position-dependent vector leaf (its cache is keyed by coordinates and time)
+            node = {"leaf": "wave", "a": scen.r3(B0 * rnd.choice([0.5, 1.0])), "kx": rnd.choice([0.7, 1.3, 2.0]), "ky": rnd.choice([0.5, 1.1]), "w": scen.r3(rnd.choice([0.5, 3.0]) / T)}
+        elif r < 0.85:
             node = {"leaf": "const_field", "B": scen.r3(B0 * rnd.choice([1.0, 0.5, -1.0, 2.0]))}
         else:
             node = {"leaf": "gauge", "c": [rnd.choice([0.05, -0.1]), rnd.choice([0.0, 0.07])], "q": [0.0, 0.0, 0.0]}
@@ -99,7 +104,7 @@ def unify_shared(node, first):
         lab = node.get("share")
         if lab is None:
             return node
-        lab = lab + ":" + ("T" if node["leaf"] in ("ramp", "pw", "sin") else "V")
+        lab = lab + ":" + ("T" if node["leaf"] in ("ramp", "pw", "sin") else ("W" if node["leaf"] == "wave" else "V"))
         node = dict(node, share=lab)
         return copy.deepcopy(first.setdefault(lab, node))
     return {"op": node["op"], "l": unify_shared(node["l"], first), "r": unify_shared(node["r"], first)}
@@ -221,6 +226,36 @@ def post(sim, h):
             except Exception as e:
                 V.append(Violation(label + "-raised", f"using the {label} copy raised {type(e).__name__}: {str(e)[:100]}", exc=type(e).__name__, **where))
 
+        # evaluation history on the composite a user holds after the run: repeated times,
+        # coordinates rewritten in place in the same buffers, fresh buffers (cache keys)
+        if td:
+            n = 40
+            xi = scn["device"]["layer"]["xi"]
+            sets = [(rs.uniform(-2, 2, n) * xi, rs.uniform(-2, 2, n) * xi) for _ in range(3)]
+            xb, yb, zb = np.empty(n), np.empty(n), np.zeros(n)
+            t0, t1 = 0.3 * scn["options"]["solve_time"], 0.7 * scn["options"]["solve_time"]
+            plan = [(0, t0, True), (1, t0, True), (1, t1, True), (0, t1, False), (2, t1, True), (2, t0, True), (0, t0, False), (1, t0, True)]
+            ctx2 = get_ctx(sim).tctx
+            for j, (k, tt, inplace) in enumerate(plan):
+                if inplace:
+                    xb[:] = sets[k][0]
+                    yb[:] = sets[k][1]
+                    args = (xb, yb, zb)
+                else:
+                    args = (sets[k][0].copy(), sets[k][1].copy(), np.zeros(n))
+                try:
+                    got = np.asarray(A(*args, t=tt), dtype=float)
+                except Exception as e:
+                    V.append(Violation("evaluation-raised", f"evaluating the composite raised {type(e).__name__}: {str(e)[:80]}", **where))
+                    break
+                want = np.asarray(B.eval_tree(tree, ctx2, sets[k][0].copy(), sets[k][1].copy(), np.zeros(n), tt), dtype=float)
+                want = np.broadcast_to(want, got.shape) if want.ndim < got.ndim or want.shape != got.shape and want.size == 1 else want
+                sc = float(np.max(np.abs(want), initial=0.0)) + 1e-300
+                if got.shape != want.shape or max_err(got, want) / sc > 1e-12:
+                    V.append(Violation("evaluation-history", f"evaluation {j} of the history (points set {k}, t={tt:.4g}, {'same buffers rewritten in place' if inplace else 'fresh arrays'}) differs from the pointwise combination of the operands by {max_err(got, want) / sc:.3g} relative", call=j, inplace=inplace, **where))
+                    break
+            for prm in walk_params(A, []):
+                prm._cache.clear()
         try:
             P = cloudpickle.loads(cloudpickle.dumps(A))
             same(P, "pickled")
@@ -258,7 +293,7 @@ def subtrees(node):
 
 def is_vector(node):
     if "leaf" in node:
-        return node["leaf"] in ("const_field", "gauge")
+        return node["leaf"] in ("const_field", "gauge", "wave")
     return is_vector(node["l"]) or is_vector(node["r"])
 
 
